@@ -150,6 +150,10 @@ var faults = []string{
 	"busyww", // ServerIsBusy with an estimated wait far above any busy threshold
 }
 
+func isRedirect(f string) bool {
+	return f == "nl1" || f == "nl2" || f == "nl3" || f == "nlnext" || f == "nlx"
+}
+
 // fatalFaults: answers after which the sender gives up with an error of its own (no retry, no region error for the caller)
 var fatalFaults = map[string]bool{"flashback": true, "flashbacknp": true, "toolarge": true, "badmaxts": true, "rpccancel": true}
 
@@ -530,7 +534,7 @@ func (c *scriptClient) SendRequest(ctx context.Context, addr string, req *tikvrp
 	if req.Type != cmdTypes[r.cfg.cmd] {
 		r.anomaly = append(r.anomaly, "cmd-type-changed")
 	}
-	if n >= r.cap {
+	if n >= r.cap+r.nBackoff {
 		// "retries forever": stop the real loop by cancelling its context
 		r.unbounded = true
 		r.rpcs = append(r.rpcs, rec)
@@ -1042,11 +1046,19 @@ func (r *runner) run() (out outcome) {
 	// no further RPC (to any store / to the same store) leaves before a back-off of that config happened
 	shortRead := c.short && !isWriteCmd(c.cmd)
 	d := "ok"
+	redirects := 0
 	for i, it := range r.seq {
 		if !it.send {
 			continue
 		}
 		kind, imm := owedBackoff(it.fault, shortRead)
+		if isRedirect(it.fault) {
+			// onNotLeader: the first #replicas leader hints are followed at once, every further one after a back-off
+			if redirects >= 3 {
+				kind, imm = "regionScheduling", true
+			}
+			redirects++
+		}
 		if kind == "" {
 			continue
 		}
@@ -1161,19 +1173,14 @@ const excludedLimit = 600000
 const capSlack = 25
 
 func (r *runner) bound() int {
-	hints := 0
-	for _, f := range r.script {
-		if f == "nl1" || f == "nl2" || f == "nl3" || f == "nlnext" {
-			hints++
-		}
-	}
-	return sendBound(3, hints)
+	return sendBound(3, r.nBackoff)
 }
 
-// sendBound: the explicit bound of theorem attempts_bounded, evaluated on the implementation's own constant:
-// #replicas * maxReplicaAttempt + (leader-hint replies in the script, each may refill one exhausted replica once).
-func sendBound(replicas, hints int) int {
-	return replicas*locate.VerifMaxReplicaAttempt() + hints
+// sendBound: the explicit bound of theorem attempts_bounded on the implementation's own constant and observation:
+// #replicas * maxReplicaAttempt + #replicas free leader-hint redirects + 1 + (back-offs taken so far) — every further
+// redirect costs a back-off.
+func sendBound(replicas, backoffs int) int {
+	return replicas*locate.VerifMaxReplicaAttempt() + replicas + 1 + backoffs
 }
 
 // ---------------------------------------------------------------------------------------------- op execution
